@@ -294,6 +294,7 @@ func (s *c14Sim) abandon() {
 type c14Op struct {
 	Kind string `json:"kind"` // pub | priv | wp | dup | bad
 	Ref  int    `json:"ref"`  // index of the op that created the transaction this op is about (wp, dup); own index otherwise
+	Same int    `json:"same,omitempty"` // creator ops: k > 0 = the payload BYTES equal those of op k-1 (same payload hash, different transaction)
 }
 
 type c14Scenario struct {
@@ -306,14 +307,41 @@ type c14Scenario struct {
 	StopAt  int     `json:"stop_at"`             // stop immediately before this numbered write step (0 = none)
 	StopCall int    `json:"stop_call,omitempty"` // or: stop immediately before the n-th receiver call is made (the subscriber never sees it)
 	Restart string  `json:"restart,omitempty"`
+	// seeded start state: the operations are admitted by a node without subscribers, then the jobs of the subscriber(s) are
+	// written with the notifier's own Save function and SeedRetries persisted tries, as if that many attempts had failed
+	// before the process stopped; the run starts with the restart
+	Seeded      bool   `json:"seeded,omitempty"`
+	SeedRetries int    `json:"seed_retries,omitempty"`
+	Only        string `json:"only,omitempty"` // register only this subscriber of the set
+}
+
+// c14SubsOf lists the subscribers that a scenario registers.
+func c14SubsOf(sc c14Scenario) []c14SubSpec {
+	all := c14Subs(sc.Set)
+	if sc.Only == "" {
+		return all
+	}
+	for _, sp := range all {
+		if sp.name == sc.Only {
+			return []c14SubSpec{sp}
+		}
+	}
+	return nil
 }
 
 func (sc c14Scenario) key() string {
 	ops := make([]string, len(sc.Ops))
 	for i, o := range sc.Ops {
 		ops[i] = o.Kind + strconv.Itoa(o.Ref)
+		if o.Same > 0 {
+			ops[i] += "=" + strconv.Itoa(o.Same-1)
+		}
 	}
-	return strings.Join(ops, ",") + "|" + sc.Set + "|" + sc.Order + "|" + sc.Faulty + ":" + sc.Script + "|" + sc.Drain
+	k := strings.Join(ops, ",") + "|" + sc.Set + "|" + sc.Order + "|" + sc.Faulty + ":" + sc.Script + "|" + sc.Drain
+	if sc.Seeded {
+		k += "|seeded:" + sc.Only + ":" + strconv.Itoa(sc.SeedRetries)
+	}
+	return k
 }
 
 type c14SubSpec struct {
@@ -573,6 +601,9 @@ func c14MakeTxs(ops []c14Op) ([]Transaction, [][]byte, map[hash.SHA256Hash]strin
 			prevs = []Transaction{last}
 		}
 		num := uint32(100 + i)
+		if op.Same > 0 {
+			num = uint32(100 + op.Same - 1) // byte-identical payload, hence the same payload hash, in a different transaction
+		}
 		pays[i] = make([]byte, 4)
 		pays[i][3] = byte(num)
 		switch op.Kind {
@@ -592,6 +623,53 @@ func c14MakeTxs(ops []c14Op) ([]Transaction, [][]byte, map[hash.SHA256Hash]strin
 	return txs, pays, names
 }
 
+// seedJobs registers the scenario's subscribers on the live (subscriber-less) instance and stores, with the notifier's
+// own Save function (which applies the filters), the events of every admitted operation with SeedRetries persisted tries.
+func (rn *c14Run) seedJobs() {
+	var ns []Notifier
+	for _, sp := range rn.subs {
+		opts := []NotifierOption{WithPersistency(rn.kv)}
+		if sp.filter != nil {
+			opts = append(opts, WithSelectionFilter(sp.filter))
+		}
+		n, err := rn.st.Notifier(c14RegName(rn.sc, sp.name), func(Event) (bool, error) { return false, errors.New("verif: not running") }, opts...)
+		if err != nil {
+			c14Fail("seeding: %v", err)
+		}
+		ns = append(ns, n)
+	}
+	rn.notifs = ns
+	err := rn.kv.Write(c14ctx, func(tx stoabs.WriteTx) error {
+		for i, op := range rn.sc.Ops {
+			if i >= len(rn.opErr) || rn.opErr[i] != "ok" {
+				continue
+			}
+			var evs []Event
+			switch op.Kind {
+			case "pub":
+				evs = []Event{{Type: PayloadEventType, Hash: rn.txs[i].Ref(), Transaction: rn.txs[i], Payload: rn.pays[i]},
+					{Type: TransactionEventType, Hash: rn.txs[i].Ref(), Transaction: rn.txs[i], Payload: rn.pays[i]}}
+			case "priv":
+				evs = []Event{{Type: TransactionEventType, Hash: rn.txs[i].Ref(), Transaction: rn.txs[i]}}
+			case "wp":
+				evs = []Event{{Type: PayloadEventType, Hash: rn.txs[op.Ref].Ref(), Transaction: rn.txs[op.Ref], Payload: rn.pays[op.Ref]}}
+			}
+			for _, e := range evs {
+				e.Retries = rn.sc.SeedRetries
+				for _, n := range ns {
+					if err := n.Save(tx, e); err != nil {
+						return err
+					}
+				}
+			}
+		}
+		return nil
+	})
+	if err != nil {
+		c14Fail("seeding: %v", err)
+	}
+}
+
 // c14Result is everything the oracle needs from one run.
 type c14Result struct {
 	Trace     []fault.Step // life 0
@@ -603,6 +681,7 @@ type c14Result struct {
 	Pending1  map[string]map[string]int // at restart, before Run: sub -> tx name -> retries
 	PendingZ  map[string]map[string]int // at the end
 	Failed    map[string]map[string]bool
+	Failed1   map[string]map[string]bool // GetFailedEvents right after the restart, before Run
 	Delays    map[int][]time.Duration
 	Present   map[string]bool // tx name -> present after restart
 	PayPresent map[string]bool
@@ -654,7 +733,10 @@ func c14Execute(t testing.TB, sim *c14Sim, sc c14Scenario, txs []Transaction, pa
 	path := filepath.Join(dir, "dag.db")
 	sim.reset()
 	sim.settle()
-	rn := &c14Run{t: t, sim: sim, sc: sc, dir: dir, txs: txs, pays: pays, names: names, counts: map[string]int{}, subs: c14Subs(sc.Set)}
+	rn := &c14Run{t: t, sim: sim, sc: sc, dir: dir, txs: txs, pays: pays, names: names, counts: map[string]int{}, subs: c14SubsOf(sc)}
+	if sc.Seeded {
+		rn.subs = nil // the operations are admitted by a node without subscribers
+	}
 	rn.open(path)
 	lap(0)
 	res := &c14Result{}
@@ -697,6 +779,10 @@ func c14Execute(t testing.TB, sim *c14Sim, sc c14Scenario, txs []Transaction, pa
 			}
 		}
 		drain()
+		if sc.Seeded {
+			rn.subs = c14SubsOf(sc)
+			rn.seedJobs()
+		}
 	})
 	sim.settle()
 	lap(1)
@@ -721,6 +807,16 @@ func c14Execute(t testing.TB, sim *c14Sim, sc c14Scenario, txs []Transaction, pa
 	rn.open(path)
 	lap(3)
 	res.Pending1 = rn.pending()
+	res.Failed1 = map[string]map[string]bool{}
+	for i, n := range rn.notifs {
+		m := map[string]bool{}
+		if evs, err := n.GetFailedEvents(); err == nil {
+			for _, e := range evs {
+				m[names[e.Hash]] = true
+			}
+		}
+		res.Failed1[rn.subs[i].name] = m
+	}
 	res.Present, res.PayPresent = map[string]bool{}, map[string]bool{}
 	for i, tx := range txs {
 		if tx == nil {
@@ -790,6 +886,11 @@ func c14Execute(t testing.TB, sim *c14Sim, sc c14Scenario, txs []Transaction, pa
 // ---------------------------------------------------------------------------------------------- oracle (App. B.7)
 
 type c14Finding struct{ clause, sub, detail string }
+
+// c14Budget is the number of persisted tries at which the notifier itself stops retrying an event that keeps failing, and
+// c14Threshold the number of tries from which GetFailedEvents lists an event. Both are READ FROM THE RUN by c14Calibrate (a
+// subscriber that fails for ever, no stop; seeded jobs with 0,1,2,… tries); the product's constants are only the fall-back.
+var c14Budget, c14Threshold = maxRetries, retriesFailedThreshold
 
 // commitOf returns the commit step of the first write transaction that begins after step number `after`
 // (optionally: whose begin names the shelf), or 0.
@@ -866,7 +967,7 @@ func c14Judge(sc c14Scenario, res *c14Result) []c14Finding {
 		}
 		return false
 	}
-	for _, sp := range c14Subs(sc.Set) {
+	for _, sp := range c14SubsOf(sc) {
 		sub := sp.name
 		byKey := map[akey][]c14Call{}
 		for _, c := range res.Calls {
@@ -951,6 +1052,14 @@ func c14Judge(sc c14Scenario, res *c14Result) []c14Finding {
 				add("vanished", sub, "%s event of %s was never completed and is no longer stored", k.typ, k.tx)
 			case inShelf && !completed && !res.Failed[sub][k.tx]:
 				add("not-visible-as-failed", sub, "%s event of %s is undelivered, no retry is scheduled any more, and GetFailedEvents does not list it (retries=%d)", k.typ, k.tx, res.PendingZ[sub][k.tx])
+			case inShelf && !completed && res.PendingZ[sub][k.tx] < c14Budget:
+				// quiescence: no retry loop exists any more. Neither completion nor a fatal answer (that marks the event with
+				// more than the budget) nor a spent budget: the notifier stopped trying with budget left
+				add("retries-stopped-with-budget-left", sub, "%s event of %s: no retry is scheduled any more after %d persisted tries although the subscriber neither completed nor failed fatally and the budget is %d", k.typ, k.tx, res.PendingZ[sub][k.tx], c14Budget)
+			}
+			// an event with at least the threshold number of tries is visible as failed, also right after the restart
+			if r1, ok := res.Pending1[sub][k.tx]; ok && r1 >= c14Threshold && res.Failed1 != nil && !res.Failed1[sub][k.tx] {
+				add("not-visible-as-failed", sub, "%s event of %s has %d persisted tries after the restart and GetFailedEvents does not list it (threshold %d)", k.typ, k.tx, r1, c14Threshold)
 			}
 		}
 	}
@@ -983,8 +1092,15 @@ func c14Histories(maxLen int, thorough bool) [][]c14Op {
 		}
 		i := len(h)
 		pendingPriv, lastCreator, nDup, nBad := -1, -1, 0, 0
+		firstPub, nSame := -1, 0
 		written := map[int]bool{}
 		for j, o := range h {
+			if o.Kind == "pub" && firstPub < 0 {
+				firstPub = j
+			}
+			if o.Same > 0 {
+				nSame++
+			}
 			switch o.Kind {
 			case "wp":
 				written[o.Ref] = true
@@ -1002,16 +1118,22 @@ func c14Histories(maxLen int, thorough bool) [][]c14Op {
 				pendingPriv = j
 			}
 		}
-		rec(append(h, c14Op{"pub", i}))
-		rec(append(h, c14Op{"priv", i}))
+		rec(append(h, c14Op{Kind: "pub", Ref: i}))
+		rec(append(h, c14Op{Kind: "priv", Ref: i}))
+		if firstPub >= 0 && nSame == 0 {
+			// payload content is a dimension: a different transaction whose payload bytes are already stored (public, and
+			// private without payload whose payload then arrives by WritePayload)
+			rec(append(h, c14Op{Kind: "pub", Ref: i, Same: firstPub + 1}))
+			rec(append(h, c14Op{Kind: "priv", Ref: i, Same: firstPub + 1}))
+		}
 		if pendingPriv >= 0 {
-			rec(append(h, c14Op{"wp", pendingPriv}))
+			rec(append(h, c14Op{Kind: "wp", Ref: pendingPriv}))
 		}
 		if lastCreator >= 0 && nDup == 0 {
-			rec(append(h, c14Op{"dup", lastCreator}))
+			rec(append(h, c14Op{Kind: "dup", Ref: lastCreator}))
 		}
 		if nBad == 0 && thorough {
-			rec(append(h, c14Op{"bad", i}))
+			rec(append(h, c14Op{Kind: "bad", Ref: i}))
 		}
 	}
 	rec(nil)
@@ -1052,6 +1174,9 @@ func c14Behaviours(set string, thorough, long bool) []c14Behaviour {
 
 // c14StopClass names the place of the stop in the words of the statement.
 func c14StopClass(res *c14Result, sc c14Scenario) string {
+	if sc.Seeded {
+		return "restart-from-seeded-jobs"
+	}
 	if !res.Stopped {
 		return "no-stop"
 	}
@@ -1117,6 +1242,9 @@ func TestVerifC14(t *testing.T) {
 		return
 	}
 
+	c14Calibrate(t, sim)
+	r.Bound("retry_budget_read_from_run", c14Budget)
+	r.Bound("failed_threshold_read_from_run", c14Threshold)
 	hists := c14Histories(maxLen, thorough)
 	short := c14Histories(maxLen-1, thorough) // the long scripts (20 attempts per event) run on the shorter histories
 	r.Bound("histories", len(hists))
@@ -1145,6 +1273,9 @@ func TestVerifC14(t *testing.T) {
 						if order == "desc" && !thorough && !(b.faulty == "" || b.script == "fail1") {
 							continue
 						}
+						if c14HasSame(h) && !thorough && !(b.faulty == "" || (b.script == "fail1" && od == "each/asc")) {
+							continue // equal-payload histories: the all-ok runs in both orders and one failing script per subscriber
+						}
 						variants = append(variants, variant{h, set, b, drain, order, long})
 					}
 				}
@@ -1155,7 +1286,7 @@ func TestVerifC14(t *testing.T) {
 	var runs, fired int64
 	sampled := 0
 	shard, nsh := r.Shard()
-	var skipped int64
+	var skipped, seeded int64
 	// try runs one case; machinery trouble (a run that does not settle, a store that does not close, …) is retried on a
 	// fresh store and, if it persists, makes the case a skipped one: not exhaustive, never a failure of the check
 	try := func(sc c14Scenario, txs []Transaction, pays [][]byte, names map[hash.SHA256Hash]string) *c14Result {
@@ -1260,12 +1391,101 @@ func TestVerifC14(t *testing.T) {
 			c14Report(r, sck, res)
 		}
 	}
+	// restarts from seeded jobs: the persisted number of tries at the moment of the stop is a dimension of its own
+	{
+		tries := map[int]bool{}
+		for _, n := range []int{0, 1, c14Threshold - 1, c14Threshold, c14Threshold + 1, c14Budget - 1, c14Budget} {
+			if n >= 0 {
+				tries[n] = true
+			}
+		}
+		if thorough {
+			for n := 0; n <= c14Budget+1; n++ {
+				tries[n] = true
+			}
+		}
+		var ns []int
+		for n := range tries {
+			ns = append(ns, n)
+		}
+		sort.Ints(ns)
+		r.Bound("seeded_persisted_tries", ns)
+		opsets := [][]c14Op{{{Kind: "pub", Ref: 0}, {Kind: "priv", Ref: 1}}}
+		if thorough {
+			opsets = append(opsets, []c14Op{{Kind: "pub", Ref: 0}, {Kind: "priv", Ref: 1}, {Kind: "wp", Ref: 1}, {Kind: "pub", Ref: 3, Same: 1}})
+		}
+		si := 0
+		for _, ops := range opsets {
+			txs, pays, names := c14MakeTxs(ops)
+			for _, set := range []string{"product", "generic"} {
+				for _, sp := range c14Subs(set) {
+					if sp.name == "all" {
+						continue // one shelf key for two events (row 10): seeding both is not possible
+					}
+					for _, n := range ns {
+						for _, script := range []string{"ok", "fail1", "failforever", "fatal"} {
+							si++
+							if !r.Mine(si) || r.Expired() {
+								continue
+							}
+							sc := c14Scenario{Ops: ops, Set: set, Only: sp.name, Faulty: sp.name, Script: script, Drain: "each", Order: "asc", Seeded: true, SeedRetries: n}
+							res := try(sc, txs, pays, names)
+							if res == nil {
+								continue
+							}
+							runs++
+							seeded++
+							r.Eval(sc.key())
+							r.Outcome(c14StopClass(res, sc))
+							c14Report(r, sc, res)
+						}
+					}
+				}
+			}
+		}
+	}
 	r.AddExtra("cases_skipped", skipped)
+	r.AddExtra("restarts_from_seeded_jobs", seeded)
 	if os.Getenv("C14_TIMING") != "" {
 		fmt.Println("TIMING open0, life0, close0, open1, run1, close1:", c14T[:6])
 	}
 	r.AddExtra("runs", runs)
 	r.AddExtra("stops_fired", fired)
+}
+
+func c14HasSame(h []c14Op) bool {
+	for _, o := range h {
+		if o.Same > 0 {
+			return true
+		}
+	}
+	return false
+}
+
+// c14Calibrate reads the retry budget and the failed-threshold from the product's own behaviour.
+func c14Calibrate(t testing.TB, sim *c14Sim) {
+	ops := []c14Op{{Kind: "pub", Ref: 0}}
+	txs, pays, names := c14MakeTxs(ops)
+	sc := c14Scenario{Ops: ops, Set: "product", Faulty: "nats", Script: "failforever", Drain: "each", Order: "asc"}
+	for attempt := 0; attempt < 3; attempt++ {
+		if res, err := c14Execute(t, sim, sc, txs, pays, names); err == nil {
+			if b := res.Pending1["nats"]["t0"]; b > 0 {
+				c14Budget = b
+			}
+			break
+		}
+	}
+	for n := 0; n <= c14Budget+1; n++ {
+		seed := c14Scenario{Ops: ops, Set: "product", Only: "nats", Script: "ok", Drain: "each", Order: "asc", Seeded: true, SeedRetries: n}
+		res, err := c14Execute(t, sim, seed, txs, pays, names)
+		if err != nil {
+			return // keep the fall-back
+		}
+		if res.Failed1["nats"]["t0"] {
+			c14Threshold = n
+			return
+		}
+	}
 }
 
 func c14Labels(res *c14Result) []string {
@@ -1304,6 +1524,9 @@ func c14Report(r *ev.Run, sc c14Scenario, res *c14Result) {
 			sig = "C14|unfiltered-subscriber|never-delivered|" + typ
 		} else {
 			sig = "C14|" + f.clause + "|" + f.sub + "|" + script + "|" + c14StopClass(res, sc)
+			if c14HasSame(sc.Ops) {
+				sig += "|equal-payload-bytes"
+			}
 			if strings.HasPrefix(f.clause, "retried-after-fatal") {
 				sig = "C14|" + f.clause // one defect, one signature: the place of the stop does not matter
 			}
